@@ -17,10 +17,11 @@ Four layers, each composed from the one before exactly as `btree.go` composes th
    `removeRightmostAt`, `replaceEntry`, `splitNode` (the amalgam, both halves, the three `Clear`
    calls), `newRootNode`, `parentInsert`, `mergeNodes`, `rotateRightNodes`, `rotateLeftNodes`);
 3. node-level histories (`NodeOp`, `applyOp`, `runOps`): arbitrary sequences of the node-level
-   operations on a family of live nodes, each within its documented precondition;
+   operations on the family of all node objects, each within its documented precondition;
 4. a pointer-level heap of such nodes (`Heap`, node identity = allocation number, parent pointers)
-   with `Put` / `Delete` transliterated statement by statement, loops bounded by fuel. This layer is
-   what the correspondence harness runs against the real `tree.Map[*int,*int]`, raw slot by raw slot.
+   with `Put` / `Delete` transliterated statement by statement, loops bounded by fuel, changing the
+   store only through `applyOp`. This layer is what the correspondence harness runs against the real
+   `tree.Map[*int,*int]`, raw slot by raw slot.
 
 Whether a zeroing / clearing / shifting statement is executed is decided by the *generated* presence
 fact of that statement (`Juniper.Gen.TreeSlots`, re-extracted from `btree.go` on every run); index
@@ -306,12 +307,18 @@ def rotateLeftNodes (parent left right : SNode K V C) (idx : Nat) :
 
 /-! ## node-level histories
 
-The family of live nodes (addressed by position) under arbitrary sequences of the node-level
-operations, each applied within the precondition its Go function documents ("Assumes left and right
-are siblings and right is not full", "either left or right has n < minKVs and the other n == minKVs",
-`overfill` on a full node, `insertIntoLeaf` on a non-full leaf …). `Put` and `Delete` only ever
-compose these steps on live nodes (that composition is `Heap.put` / `Heap.delete` above, checked slot
-by slot against the real code), so an invariant of every such history is an invariant of the tree. -/
+The family of all node objects (addressed by position = allocation number; `none` = an object that
+has been unlinked and is garbage) under arbitrary sequences of the node-level operations, each
+applied within the precondition its Go function documents ("Assumes left and right are siblings and
+right is not full", "either left or right has n < minKVs and the other n == minKVs", `overfill` on a
+full node, `insertIntoLeaf` on a non-full leaf …). `Heap.put` / `Heap.delete` below change the store
+*only* through `applyOp` (`Heap.step`), so every `Put` / `Delete` history of the heap model is such a
+history, and an invariant of every node-level history is an invariant of the whole tree. -/
+
+/-- all node objects ever allocated; `none` = unlinked -/
+abbrev Fam (K V C : Type) := List (Option (SNode K V C))
+
+def getNode (fam : Fam K V C) (i : Nat) : Option (SNode K V C) := (fam[i]?).join
 
 inductive NodeOp (K V C : Type) where
   /-- `insertIntoLeaf` on the non-full leaf `i` -/
@@ -324,103 +331,114 @@ inductive NodeOp (K V C : Type) where
   | removeRightmost (i : Nat)
   /-- `Delete`, inner branch: the replacement entry is written at `idx` of node `i` -/
   | replaceEntry (i idx : Nat) (k : K) (v : V)
-  /-- one round of `overfill` on the full node `i`; the right half joins the family -/
+  /-- one round of `overfill` on the full node `i`; the right half is a new object -/
   | split (i e : Nat) (k : K) (v : V) (afterK : Option C)
-  /-- the new root of `overfill` joins the family -/
+  /-- the new root of `overfill` is a new object -/
   | newRoot (k : K) (v : V) (left right : C)
   /-- `overfill`, parent `i` not full -/
   | parentInsert (i idx : Nat) (k : K) (v : V) (right : C)
-  /-- `mergeTwo(l, r)` below parent `p`; the right node leaves the family (it is unlinked) -/
+  /-- `mergeTwo(l, r)` below parent `p`; the right node is unlinked -/
   | mergeTwo (p l r idx : Nat)
   | rotateRight (p l r idx : Nat)
   | rotateLeft (p l r idx : Nat)
+  /-- `x.parent = p` -/
+  | setParent (i : Nat) (p : Option C)
   /-- a node becomes unreachable (the collapsed root) -/
   | drop (i : Nat)
 
 /-- one step; `none` = the operation is not enabled (precondition violated) or panics -/
-def applyOp (fam : List (SNode K V C)) : NodeOp K V C → Option (List (SNode K V C))
+def applyOp (fam : Fam K V C) : NodeOp K V C → Option (Fam K V C)
   | .leafInsert i idx k v => do
-    let x ← fam[i]?
+    let x ← getNode fam i
     if x.isLeaf ∧ (idx : Int) ≤ x.n ∧ x.n < keysCap then
       let x' ← leafInsert x idx k v
-      pure (fam.set i x')
+      pure (fam.set i (some x'))
     else none
   | .setValue i idx v => do
-    let x ← fam[i]?
+    let x ← getNode fam i
     if (idx : Int) < x.n then
       let x' ← setValue x idx v
-      pure (fam.set i x')
+      pure (fam.set i (some x'))
     else none
   | .leafRemove i idx => do
-    let x ← fam[i]?
+    let x ← getNode fam i
     if x.isLeaf ∧ (idx : Int) < x.n then
       let x' ← leafRemove x idx
-      pure (fam.set i x')
+      pure (fam.set i (some x'))
     else none
   | .removeRightmost i => do
-    let x ← fam[i]?
+    let x ← getNode fam i
     if x.isLeaf ∧ 0 < x.n then
       let (_, _, x') ← removeRightmostAt x
-      pure (fam.set i x')
+      pure (fam.set i (some x'))
     else none
   | .replaceEntry i idx k v => do
-    let x ← fam[i]?
+    let x ← getNode fam i
     if (idx : Int) < x.n then
       let x' ← replaceEntry x idx (some k) (some v)
-      pure (fam.set i x')
+      pure (fam.set i (some x'))
     else none
   | .split i e k v afterK => do
-    let x ← fam[i]?
+    let x ← getNode fam i
     if x.n = keysCap ∧ e ≤ keysCap ∧ (x.isLeaf ∨ afterK.isSome) then
       let (l, _, _, r) ← splitNode x e (some k) (some v) afterK
-      pure (fam.set i l ++ [r])
+      pure (fam.set i (some l) ++ [some r])
     else none
   | .newRoot k v l r => do
     let x ← newRootNode (some k) (some v) l r
-    pure (fam ++ [x])
+    pure (fam ++ [some x])
   | .parentInsert i idx k v r => do
-    let x ← fam[i]?
+    let x ← getNode fam i
     if ¬ x.isLeaf ∧ (idx : Int) ≤ x.n ∧ x.n < keysCap then
       let x' ← parentInsert x idx (some k) (some v) r
-      pure (fam.set i x')
+      pure (fam.set i (some x'))
     else none
   | .mergeTwo p l r idx => do
-    let xp ← fam[p]?
-    let xl ← fam[l]?
-    let xr ← fam[r]?
+    let xp ← getNode fam p
+    let xl ← getNode fam l
+    let xr ← getNode fam r
     if p ≠ l ∧ l ≠ r ∧ p ≠ r ∧ ¬ xp.isLeaf ∧ (idx : Int) < xp.n ∧ xl.isLeaf = xr.isLeaf ∧ xl.n + 1 + xr.n ≤ keysCap then
       let (p', l', _) ← mergeNodes xp xl xr idx
-      pure (((fam.set p p').set l l').eraseIdx r)
+      pure (((fam.set p (some p')).set l (some l')).set r none)
     else none
   | .rotateRight p l r idx => do
-    let xp ← fam[p]?
-    let xl ← fam[l]?
-    let xr ← fam[r]?
+    let xp ← getNode fam p
+    let xl ← getNode fam l
+    let xr ← getNode fam r
     if p ≠ l ∧ l ≠ r ∧ p ≠ r ∧ (idx : Int) < xp.n ∧ xl.isLeaf = xr.isLeaf ∧ 0 < xl.n ∧ xr.n < keysCap then
       let (p', l', r', _) ← rotateRightNodes xp xl xr idx
-      pure (((fam.set p p').set l l').set r r')
+      pure (((fam.set p (some p')).set l (some l')).set r (some r'))
     else none
   | .rotateLeft p l r idx => do
-    let xp ← fam[p]?
-    let xl ← fam[l]?
-    let xr ← fam[r]?
+    let xp ← getNode fam p
+    let xl ← getNode fam l
+    let xr ← getNode fam r
     if p ≠ l ∧ l ≠ r ∧ p ≠ r ∧ 0 < idx ∧ (idx : Int) ≤ xp.n ∧ xl.isLeaf = xr.isLeaf ∧ 0 < xr.n ∧ xl.n < keysCap then
       let (p', l', r', _) ← rotateLeftNodes xp xl xr idx
-      pure (((fam.set p p').set l l').set r r')
+      pure (((fam.set p (some p')).set l (some l')).set r (some r'))
     else none
-  | .drop i => some (fam.eraseIdx i)
+  | .setParent i p => do
+    let x ← getNode fam i
+    pure (fam.set i (some { x with parent := p }))
+  | .drop i => some (fam.set i none)
 
-/-- a history from `newBtree` (one empty root) -/
-def runOps (fam : List (SNode K V C)) : List (NodeOp K V C) → Option (List (SNode K V C))
+/-- a history -/
+def runOps (fam : Fam K V C) : List (NodeOp K V C) → Option (Fam K V C)
   | [] => some fam
   | op :: ops => (applyOp fam op).bind (runOps · ops)
 
-/-! ## the heap of nodes: `Put` / `Delete` statement by statement -/
+/-! ## the heap of nodes: `Put` / `Delete` statement by statement
 
-/-- all node objects ever allocated (identity = index), the fields of `btree`, and two logs that the
-driver prints and resets: the nodes written and the structural events since the last dump. -/
+Node identity = allocation number = position in the store, parent pointers, loops bounded by fuel.
+The store is changed only by `Heap.step`, i.e. by an enabled `applyOp`: where the Go code would
+silently leave the documented precondition of one of its helpers (a rotation into a full node, a merge
+that does not fit) the model answers `none` like for a panic, and the correspondence harness would
+report the difference in outcome. -/
+
+/-- the store, the fields of `btree`, and two logs that the driver prints and resets: the nodes
+written and the structural events since the last dump. -/
 structure Heap (K V : Type) where
-  nodes : Array (SNode K V Nat)
+  nodes : Fam K V Nat
   root : Nat
   size : Int
   gen : Int
@@ -432,15 +450,14 @@ variable {K V : Type}
 
 /-- `newBtree` -/
 def empty : Heap K V :=
-  { nodes := #[SNode.fresh], root := 0, size := 0, gen := 0, dirty := [0], events := [] }
+  { nodes := [some SNode.fresh], root := 0, size := 0, gen := 0, dirty := [0], events := [] }
 
-def get (h : Heap K V) (id : Nat) : Option (SNode K V Nat) := h.nodes[id]?
+def get (h : Heap K V) (id : Nat) : Option (SNode K V Nat) := getNode h.nodes id
 
-def set (h : Heap K V) (id : Nat) (x : SNode K V Nat) : Heap K V :=
-  { h with nodes := h.nodes.setIfInBounds id x, dirty := id :: h.dirty }
-
-def alloc (h : Heap K V) (x : SNode K V Nat) : Heap K V × Nat :=
-  ({ h with nodes := h.nodes.push x, dirty := h.nodes.size :: h.dirty }, h.nodes.size)
+/-- the only way the store changes: one enabled node-level operation (`written` = the nodes it
+writes, for the driver's dump) -/
+def step (h : Heap K V) (op : NodeOp K V Nat) (written : List Nat) : Option (Heap K V) :=
+  (applyOp h.nodes op).map fun fam => { h with nodes := fam, dirty := written ++ h.dirty }
 
 def event (h : Heap K V) (e : String) : Heap K V := { h with events := e :: h.events }
 
@@ -450,8 +467,7 @@ def level (x : SNode K V Nat) : String := if x.isLeaf then "leaf" else "int"
 def setParents (h : Heap K V) (cs : List (Option Nat)) (p : Option Nat) : Option (Heap K V) :=
   cs.foldlM (fun h c => do
     let id ← c
-    let x ← h.get id
-    pure (h.set id { x with parent := p })) h
+    h.step (.setParent id p) [id]) h
 
 /-- the loop of `searchNode` over `keys[0..n)`; comparing with a zero key = nil dereference in the
 harness' comparator -/
@@ -491,22 +507,30 @@ def descend (cmp : K → K → Int) (k : K) (h : Heap K V) : Nat → Nat → Opt
       descend cmp k h fuel c
 
 /-- `overfill` -/
-def overfill (cmp : K → K → Int) : Nat → Heap K V → Nat → K → Option V → Option Nat → Option (Heap K V)
+def overfill (cmp : K → K → Int) : Nat → Heap K V → Nat → K → V → Option Nat → Option (Heap K V)
   | 0, _, _, _, _, _ => none
   | fuel + 1, h, xid, k, v, afterK => do
     let x ← h.get xid
     let e ← lowerFrom Tree.amalgamLess cmp k x.keys x.keys.length 0
-    let (left, sepK, sepV, right) ← splitNode x e (some k) v afterK
-    let (h, rid) := h.alloc right
-    let h := (h.set xid left).event ("split-" ++ level x)
+    -- what the split will produce (separator, the children that move); the store is changed by `step`
+    let sp ← splitNode x e (some k) (some v) afterK
+    let left := sp.1
+    let sepK := sp.2.1
+    let sepV := sp.2.2.1
+    let right := sp.2.2.2
+    let rid := h.nodes.length
+    let h ← h.step (.split xid e k v afterK) [xid, rid]
+    let h := h.event ("split-" ++ level x)
     let rn ← toIdx right.n
     let ln ← toIdx left.n
-    let h ← if x.isLeaf then some h else do
-      let h ← h.setParents (right.kids.take (rn + 1)) (some rid)
-      h.setParents (left.kids.take (ln + 1)) (some xid)
+    let h ← (if x.isLeaf then some h else
+      (h.setParents (right.kids.take (rn + 1)) (some rid)).bind fun h =>
+        h.setParents (left.kids.take (ln + 1)) (some xid))
+    let sk ← sepK
+    let sv ← sepV
     if xid = h.root then
-      let p ← newRootNode sepK sepV xid rid
-      let (h, pid) := h.alloc p
+      let pid := h.nodes.length
+      let h ← h.step (.newRoot sk sv xid rid) [pid]
       let h ← h.setParents [some xid, some rid] (some pid)
       pure (Heap.event { h with root := pid } "newroot")
     else
@@ -515,27 +539,24 @@ def overfill (cmp : K → K → Int) : Nat → Heap K V → Nat → K → Option
       let p ← h.get pid
       if Tree.overfillParentHasRoom (Tree.full p.n) then
         let idx ← indexOf p.kids xid
-        let p' ← parentInsert p idx sepK sepV rid
-        let h := h.set pid p'
+        let h ← h.step (.parentInsert pid idx sk sv rid) [pid]
         h.setParents [some rid] (some pid)
       else
-        let sk ← sepK
-        overfill cmp fuel h pid sk sepV (some rid)
+        overfill cmp fuel h pid sk sv (some rid)
 
 /-- `btree.Put` -/
 def put (cmp : K → K → Int) (h : Heap K V) (k : K) (v : V) : Option (Heap K V) := do
-  let (curr, idx, found) ← descend cmp k h (h.nodes.size + 1) h.root
+  let d ← descend cmp k h (h.nodes.length + 1) h.root
+  let curr := d.1
+  let idx := d.2.1
   let x ← h.get curr
-  if found then
-    let x' ← setValue x idx v
-    pure (h.set curr x')
+  if d.2.2 then
+    h.step (.setValue curr idx v) [curr]
   else
-    let h ← if Tree.putInsertsDirect (Tree.full x.n) then do
-        let n ← toIdx x.n
-        let i ← lowerFrom Tree.insertLess cmp k x.keys n 0
-        let x' ← leafInsert x i k v
-        pure (h.set curr x')
-      else overfill cmp (h.nodes.size + 1) h curr k (some v) none
+    let h ← (if Tree.putInsertsDirect (Tree.full x.n) then
+        (toIdx x.n).bind fun n => (lowerFrom Tree.insertLess cmp k x.keys n 0).bind fun i =>
+          h.step (.leafInsert curr i k v) [curr]
+      else overfill cmp (h.nodes.length + 1) h curr k v none)
     pure { h with gen := bumpIf Tree.putBumpsGen h.gen 1, size := bumpIf Tree.putBumpsSize h.size 1 }
 
 /-- `siblings`: the two neighbouring child slots of the parent (`none` = nil) and nothing if `x` has
@@ -558,41 +579,44 @@ def rotateLeft (h : Heap K V) (lid rid : Nat) : Option (Heap K V) := do
   let pid ← right.parent
   let p ← h.get pid
   let idx ← indexOf p.kids rid
-  let (p', l', r', child) ← rotateLeftNodes p left right idx
-  let h := ((h.set pid p').set rid r').set lid l'
-  let h ← match child with
+  let child ← right.kids[0]?
+  let h ← h.step (.rotateLeft pid lid rid idx) [pid, rid, lid]
+  let h ← (match child with
     | none => some h
-    | some c => h.setParents [some c] (some lid)
+    | some c => h.setParents [some c] (some lid))
   pure (h.event ("rotl-" ++ level left))
 
 /-- `rotateRight(left, right)` on the heap -/
 def rotateRight (h : Heap K V) (lid rid : Nat) : Option (Heap K V) := do
   let left ← h.get lid
-  let right ← h.get rid
   let pid ← left.parent
   let p ← h.get pid
   let idx ← indexOf p.kids lid
-  let (p', l', r', child) ← rotateRightNodes p left right idx
-  let h := ((h.set pid p').set lid l').set rid r'
-  let h ← match child with
+  let ci ← toIdx (TreeSlots.rotateRightChildIdx left.n)
+  let child ← left.kids[ci]?
+  let h ← h.step (.rotateRight pid lid rid idx) [pid, lid, rid]
+  let h ← (match child with
     | none => some h
-    | some c => h.setParents [some c] (some rid)
+    | some c => h.setParents [some c] (some rid))
   pure (h.event ("rotr-" ++ level left))
+
+/-- `sib.n` if the sibling exists (the Go conditions only read it behind `sib != nil &&`) -/
+def nOf (h : Heap K V) : Option Nat → Option Int
+  | some r => (h.get r).map (·.n)
+  | none => some 0
 
 /-- `steal` -/
 def steal (h : Heap K V) (xid : Nat) : Option (Heap K V × Bool) := do
-  let (left, right) ← siblings h xid
-  let rn ← match right with
-    | some r => (h.get r).map (·.n)
-    | none => some 0
+  let lr ← siblings h xid
+  let left := lr.1
+  let right := lr.2
+  let rn ← nOf h right
   if Tree.stealRight right.isSome rn then
     let r ← right
     let h ← rotateLeft h xid r
     pure (h, true)
   else
-    let ln ← match left with
-      | some l => (h.get l).map (·.n)
-      | none => some 0
+    let ln ← nOf h left
     if Tree.stealLeft left.isSome ln then
       let l ← left
       let h ← rotateRight h l xid
@@ -604,30 +628,33 @@ def mergeFrom : Nat → Heap K V → Nat → Option (Heap K V)
   | 0, _, _ => none
   | fuel + 1, h, xid => do
     -- merge(x)
-    let (left, right) ← siblings h xid
-    let ln ← match left with
-      | some l => (h.get l).map (·.n)
-      | none => some 0
-    let (lid, rid) ← if Tree.mergeIntoLeft left.isSome ln then left.map (·, xid) else right.map (xid, ·)
+    let lr ← siblings h xid
+    let left := lr.1
+    let right := lr.2
+    let ln ← nOf h left
+    let lrid ← (if Tree.mergeIntoLeft left.isSome ln then left.map (·, xid) else right.map (xid, ·))
+    let lid := lrid.1
+    let rid := lrid.2
     -- mergeTwo(left, right)
     let l ← h.get lid
     let r ← h.get rid
     let pid ← l.parent
     let p ← h.get pid
     let idx ← indexOf p.kids lid
-    let (p', l', r') ← mergeNodes p l r idx
-    let h ← if r.isLeaf then some h else do
-      let rn ← toIdx r.n
-      h.setParents (r.kids.take (rn + 1)) (some lid)
-    let h := (((h.set lid l').set pid p').set rid r').event ("merge-" ++ level l)
+    let h ← (if r.isLeaf then some h else
+      (toIdx r.n).bind fun rn => h.setParents (r.kids.take (rn + 1)) (some lid))
+    let h ← h.step (.mergeTwo pid lid rid idx) [lid, pid]
+    let h := h.event ("merge-" ++ level l)
+    let p' ← h.get pid
     if Tree.mergeRootCheck pid h.root then
       if Tree.mergeRootEmpty p'.n then
-        let l' ← h.get lid
-        pure (Heap.event { (h.set lid { l' with parent := none }) with root := lid } "collapse")
+        let h ← h.step (.setParent lid none) [lid]
+        let h ← h.step (.drop pid) []
+        pure (Heap.event { h with root := lid } "collapse")
       else pure h
     else if Tree.mergeCascades p'.n false then
-      let (h, stole) ← steal h pid
-      if Tree.mergeCascades p'.n stole then mergeFrom fuel h pid else pure h
+      let hs ← steal h pid
+      if Tree.mergeCascades p'.n hs.2 then mergeFrom fuel hs.1 pid else pure hs.1
     else pure h
 
 /-- `rightmostLeaf` -/
@@ -642,43 +669,61 @@ def rightmostLeaf (h : Heap K V) : Nat → Nat → Option Nat
       let c ← c
       rightmostLeaf h fuel c
 
+/-- `Delete`, leaf branch: the new heap and the leaf that still has to be merged, if any -/
+def deleteLeaf (h : Heap K V) (curr idx : Nat) : Option (Heap K V × Option Nat) := do
+  let h ← h.step (.leafRemove curr idx) [curr]
+  let x' ← h.get curr
+  if Tree.deleteLeafDone x'.n false then pure (h, none)
+  else
+    let hs ← steal h curr
+    if Tree.deleteLeafDone x'.n hs.2 then pure (hs.1, none) else pure (hs.1, some curr)
+
+/-- `Delete`, inner branch -/
+def deleteInner (h : Heap K V) (curr idx : Nat) (x : SNode K V Nat) (fuel : Nat) : Option (Heap K V × Option Nat) := do
+  let c ← x.kids[idx]?
+  let c ← c
+  let lf ← rightmostLeaf h fuel c
+  let lx ← h.get lf
+  let r ← removeRightmostAt lx
+  let h ← h.step (.removeRightmost lf) [lf]
+  let lx' ← h.get lf
+  let rk ← r.1
+  let rv ← r.2.1
+  let h ← h.step (.replaceEntry curr idx rk rv) [curr]
+  if Tree.removeRightmostUnder lx'.n then
+    if Tree.deleteInnerDone false false then pure (h, none)
+    else
+      let hs ← steal h lf
+      if Tree.deleteInnerDone false hs.2 then pure (hs.1, none) else pure (hs.1, some lf)
+  else if Tree.deleteInnerDone true false then pure (h, none) else none
+
 /-- `btree.Delete` -/
 def delete (cmp : K → K → Int) (h : Heap K V) (k : K) : Option (Heap K V) := do
-  let (curr, idx, found) ← descend cmp k h (h.nodes.size + 1) h.root
-  if !found then return h
-  let h := { h with size := bumpIf Tree.deleteDecSize h.size (-1), gen := bumpIf Tree.deleteBumpsGen h.gen 1 }
-  let x ← h.get curr
-  let fuel := h.nodes.size + 1
-  let (h, leaf) ← if x.isLeaf then do
-      let x' ← leafRemove x idx
-      let h := h.set curr x'
-      if Tree.deleteLeafDone x'.n false then pure (h, none)
-      else
-        let (h, stole) ← steal h curr
-        if Tree.deleteLeafDone x'.n stole then pure (h, none) else pure (h, some curr)
-    else do
-      let c ← x.kids[idx]?
-      let c ← c
-      let lf ← rightmostLeaf h fuel c
-      let lx ← h.get lf
-      let (rk, rv, lx') ← removeRightmostAt lx
-      let h := h.set lf lx'
-      let under : Option Nat := if Tree.removeRightmostUnder lx'.n then some lf else none
-      let x ← h.get curr
-      let x' ← replaceEntry x idx rk rv
-      let h := h.set curr x'
-      match under with
-      | none => if Tree.deleteInnerDone true false then pure (h, none) else none
-      | some lf =>
-        if Tree.deleteInnerDone false false then pure (h, none)
-        else
-          let (h, stole) ← steal h lf
-          if Tree.deleteInnerDone false stole then pure (h, none) else pure (h, some lf)
-  match leaf with
-  | none => pure h
-  | some lf => if Tree.deleteMerges lf h.root then mergeFrom fuel h lf else pure h
+  let d ← descend cmp k h (h.nodes.length + 1) h.root
+  let curr := d.1
+  let idx := d.2.1
+  if !d.2.2 then pure h
+  else
+    let h := { h with size := bumpIf Tree.deleteDecSize h.size (-1), gen := bumpIf Tree.deleteBumpsGen h.gen 1 }
+    let x ← h.get curr
+    let fuel := h.nodes.length + 1
+    let hl ← (if x.isLeaf then deleteLeaf h curr idx else deleteInner h curr idx x fuel)
+    match hl.2 with
+    | none => pure hl.1
+    | some lf => if Tree.deleteMerges lf hl.1.root then mergeFrom fuel hl.1 lf else pure hl.1
 
-/-- pre-order walk from the root over *all* non-nil child slots (like the hook), each node once -/
+/-- a `Put` / `Delete` history -/
+inductive Mut (K V : Type) where
+  | put (k : K) (v : V)
+  | del (k : K)
+
+def runMuts (cmp : K → K → Int) (h : Heap K V) : List (Mut K V) → Option (Heap K V)
+  | [] => some h
+  | .put k v :: ms => (h.put cmp k v).bind (runMuts cmp · ms)
+  | .del k :: ms => (h.delete cmp k).bind (runMuts cmp · ms)
+
+/-- pre-order walk from the root over *all* non-nil child slots (like the hook), each node once; a
+reference to an unlinked object ends the walk there -/
 def walk (h : Heap K V) : Nat → List Nat → List Nat → List Nat
   | 0, _, acc => acc
   | _, [], acc => acc
@@ -686,11 +731,11 @@ def walk (h : Heap K V) : Nat → List Nat → List Nat → List Nat
     if acc.contains nid then walk h fuel todo acc
     else
       match h.get nid with
-      | none => walk h fuel todo acc
+      | none => walk h fuel todo (nid :: acc)
       | some x => walk h fuel (x.kids.filterMap (fun c => c) ++ todo) (nid :: acc)
 
 /-- the live nodes in pre-order -/
-def live (h : Heap K V) : List Nat := (walk h (h.nodes.size * (childrenCap + 1) + 2) [h.root] []).reverse
+def live (h : Heap K V) : List Nat := (walk h (h.nodes.length * (childrenCap + 1) + 2) [h.root] []).reverse
 
 end Heap
 
